@@ -282,7 +282,8 @@ inline StrObj *pick(std::vector<StrObj *> &v, uint32_t sel) {
     for (size_t k = 0, n = v.size(); k < n; k++) { StrObj *o = v[(sel + k) % n]; if (o->model.size() <= MAX_OPERAND_BYTES || o->st != M_DEFINITE) return o->model.size() <= MAX_OPERAND_BYTES ? o : nullptr; }
     return nullptr;
 }
-StrObj *pick_str_wf(Ctx &c, uint32_t sel);          // a string whose model is strictly well-formed (or nullptr)
+StrObj *pick_str_wf(Ctx &c, uint32_t sel);
+StrObj *pick_str_nohazard(Ctx &c, uint32_t sel);          // a string whose model is strictly well-formed (or nullptr)
 BufObj<char> *pick_b8_text(Ctx &c, uint32_t sel);   // a char buffer without C03 hazard bytes
 
 // operand codes of role K: < 1000 literal; 1000 size; 1001 size-1; 1002 size+1; 1003 size/2; 1004 ST_AUTO_SIZE; 1005 2*size+2
